@@ -418,6 +418,10 @@ def rule_C6e(ctx, prog, label, rule='C6e'):
             v = int_value(e0)
             if v is not None:
                 return Lin(v)
+            if e0.kind == 'DeclRefExpr' and e0.refid not in ups and e0.refkind == 'VarDecl':
+                d1 = fs.single_def(e0.refid)
+                if d1 is not None:
+                    return lin_at(d1, d1)         # a const local stands for its definition, evaluated where it is defined
             if e0.kind == 'DeclRefExpr' and e0.refid in ups:
                 val = Lin.atom(e0.ref + '@0')
                 for (pos, op, c) in sorted(ups[e0.refid]):
@@ -433,7 +437,11 @@ def rule_C6e(ctx, prog, label, rule='C6e'):
                     return b.scale(a.c)
                 if b.is_const():
                     return a.scale(b.c)
-            return fs.sym(e0)
+            if e0.kind == 'MemberExpr':
+                return fs.sym(e0)
+            if e0.kind == 'DeclRefExpr':
+                return Lin.atom(e0.ref)
+            return Lin.atom(pp(e0))
         wins = {}
         for n in f.body.walk():
             if n.kind == 'VarDecl' and n.kids and n.init:
